@@ -143,13 +143,33 @@ class State:
             self.solver.add(self.pc[self.nadded])
             self.nadded += 1
 
+    def _check(self):
+        """solver.check() with a watchdog (z3 occasionally ignores its timeout)"""
+        import threading
+        done = threading.Event()
+        ctx = self.solver.ctx      # only the long-lived context is shared with the watchdog thread
+
+        def watchdog(done=done, ctx=ctx):
+            if not done.wait(5.0):
+                try:
+                    ctx.interrupt()
+                except Exception:
+                    pass
+        threading.Thread(target=watchdog, daemon=True).start()
+        try:
+            return self.solver.check()
+        except z3.Z3Exception:
+            return z3.unknown
+        finally:
+            done.set()
+
     def feasible(self, extra=None):
         self._sync()
         if extra is None:
-            return self.solver.check() != z3.unsat
+            return self._check() != z3.unsat
         self.solver.push()
         self.solver.add(extra)
-        r = self.solver.check()
+        r = self._check()
         self.solver.pop()
         return r != z3.unsat
 
@@ -163,7 +183,7 @@ class State:
         self._sync()
         self.solver.push()
         self.solver.add(Not(c))
-        r = self.solver.check()
+        r = self._check()
         self.solver.pop()
         return r == z3.unsat
 
@@ -267,6 +287,9 @@ class State:
             raise Unsupported('write to %s.%s after the object escaped into an abstract list' % (o.cls.__name__, field))
         o.f[field] = value
         self.writes.append((ref.oid, field))
+        hook = self.ghost.get('write_hook')
+        if hook is not None:
+            hook(self, ref, field)
 
     def snapshot(self):
         return Snapshot(self)
